@@ -38,6 +38,32 @@ class ChoiceRandom:
             out.append(pool.pop(symex.choose(len(pool))))
         x[:] = out
 
+    # the rest of the module's selection interface, each with its documented
+    # contract and the explorer choosing the outcome
+    def choice(self, seq):
+        seq = list(seq)
+        return seq[symex.choose(len(seq))]
+
+    def choices(self, population, weights=None, *, cum_weights=None, k=1):
+        pool = list(population)          # with replacement
+        return [pool[symex.choose(len(pool))] for _ in range(k)]
+
+    def randrange(self, start, stop=None, step=1):
+        if stop is None:
+            start, stop = 0, start
+        vals = list(range(start, stop, step))
+        return vals[symex.choose(len(vals))]
+
+    def randint(self, a, b):
+        return self.randrange(a, b + 1)
+
+    def random(self):
+        return (0.0, 0.5, 0.999)[symex.choose(3)]
+
+    def __getattr__(self, name):
+        raise NotImplementedError(
+            'random.%s is not modelled by the C20 stand-in' % name)
+
 
 def entry_eq(a, b):
     """z3 Bool/bool: two returned entries are the same candidate"""
@@ -82,8 +108,12 @@ def make_family(tname, qname, query, randomize, usage=False):
                             *[entry_eq(a, b) for a, b in zip(full, again)]))),
                             'identical request returned a different ordered '
                             'list')
-                limits = range(1, M + 2) if (not randomize or M <= 2) \
-                    else [1, M]
+                limits = list(range(1, M + 2))
+                if randomize:
+                    # one limit per path (an explorer decision): the
+                    # selections of different limits add up instead of
+                    # multiplying
+                    limits = [limits[symex.choose(len(limits))]]
                 for N in limits:
                     q = copy.copy(query)
                     q.limit = N
@@ -129,8 +159,7 @@ def make_family(tname, qname, query, randomize, usage=False):
                                 'ordered'), path,
                   bounds=dict(topology=topo.parents, query=qname,
                               randomize=randomize,
-                              limits='1..M+1' if not randomize else
-                              '1..M+1 for M<=2, else {1, M}'))
+                              limits='1..M+1'))
 
 
 def families(tier):
